@@ -109,7 +109,14 @@ def build_tree(r, decls, relpath, depth, counter, same_names=False):
     moved = [decls[i] for i in sorted(idx)]
     counter[0] += 1
     c = 1.0 if same_names else r.random()
-    if c < 0.45:
+    stem = os.path.splitext(os.path.basename(relpath))[0]
+    if c < 0.12 and depth > 0:
+        # the module lives in a directory named like the importing module FILE (m1.fcp imports m1/m2.fcp)
+        segs = [stem, "m%d" % counter[0]]
+    elif c < 0.24:
+        # upper-case letters in file and directory names
+        segs = ["Dir%d" % counter[0], "Mod%dX" % counter[0]] if r.random() < 0.5 else ["Mod%dX" % counter[0]]
+    elif c < 0.45:
         segs = ["m%d" % counter[0]]
     elif c < 0.8:
         segs = ["d%d" % counter[0]] * r.choice([1, 2]) + ["m%d" % counter[0]]
